@@ -237,6 +237,21 @@ PROPS = {
         real_vs_stub=L_REAL,
         assumptions=SIM_ASSUME + ["backend Save is atomic at a crash (design.rst); torn files only after an error-returning Save on non-atomic backends"],
     ),
+    "C02": dict(
+        pkg="internal/repository", test="TestVerifC02", level="exploration", quick_s=45, thorough_s=600,
+        text="save side: a monitor inside the simulated store checks at every save that the file name is the SHA-256 of the stored bytes (config "
+             "excepted) and an independent decoder checks that every blob in every pack hashes to its ID, including the all-zero minimum-size chunk "
+             "whose hash restic takes from a shortcut; read side: Load delivers bit-flipped, truncated or misdirected (another file's or an other "
+             "range's) bytes, once, a few times or on every read, with and without the real local cache; LoadUnpacked, LoadRaw, LoadBlob, "
+             "LoadBlobsFromPack and ListPackHandles return exactly the content saved under the requested ID (the true pack listing) or an error, "
+             "and never fail without a corrupted read",
+        note="corruption is injected in the bytes the backend delivers; at-rest corruption and its reporting by check is C03",
+        design_ref="3 / C02",
+        rule="one run = format x compression x cache on/off x corruption rate/budget x 3-12 generated load operations; distinct = distinct event-log "
+             "hash among runs with a fired fault",
+        real_vs_stub="real: Repository load paths, index, pack.List, crypto, zstd, cache backend; simulated: object store with corrupting reads",
+        assumptions=SIM_ASSUME,
+    ),
     "C35": dict(
         pkg="internal/backend/retry", test="TestVerifC35", level="fault_enumeration", quick_s=30, thorough_s=600,
         text="the real retry backend with its real back-off on the simulated clock (15-minute budget, both settings of the backend-error-redesign "
